@@ -33,7 +33,10 @@ def lattices(ctx, rng):
            ("wheel6", eg.higher_coordination_number_example(6)), ("bridge", eg.bridge_graph()),
            # three and four parallel bonds between the same two sites, all stored in the same orientation
            ("two_site_torus", zoo.two_site_torus()), ("multi_graph", eg.multi_graph()), ("brick_wall42", zoo.brick_wall(4, 2)),
-           ("triple_bond", Lattice(np.array([[0.3, 0.4], [0.7, 0.6]]), np.array([[0, 1], [0, 1], [0, 1]]), np.array([[0, 0], [-1, 0], [0, -1]])))]
+           ("triple_bond", Lattice(np.array([[0.3, 0.4], [0.7, 0.6]]), np.array([[0, 1], [0, 1], [0, 1]]), np.array([[0, 0], [-1, 0], [0, -1]]))),
+           # multi-bond lattices with more than 64 (thorough: more than 256) sites (strips one or two cells wide: neighbours joined directly and round the torus)
+           ("square2x40", eg.square_lattice(2, 40)), ("honeystrip1x20", eg.tile_unit_cell(*zoo.raw(eg.honeycomb_lattice(1)), [1, 20]))] + \
+          ([] if quick else [("square70x2", eg.square_lattice(70, 2)), ("square2x150", eg.square_lattice(2, 150))])
     for N in ([2, 2, 3, 4, 6, 10, 16] if quick else [2, 2, 2, 3, 3, 4, 5, 6, 8, 10, 16, 25, 40]):
         l = zoo.voronoi(rng, N)
         out.append((f"vor{N}", l))
